@@ -2,17 +2,32 @@
 harness/cmd/gen*).  Files are rewritten only when their content changed so
 that make stays incremental."""
 import os
+import re
+import shutil
 import common
+from common import sh, HARNESS, COQ, GOENV, REPO, Lock
 
 
-def write_if_changed(path, content):
-    old = open(path).read() if os.path.exists(path) else None
-    if old != content:
-        with open(path, "w") as f:
-            f.write(content)
-        return True
-    return False
+def regenerate_ber():
+    """cdrType registry (go/parser) -> reflect -> coq/Ber/SchemaGen.v"""
+    with Lock("go"):
+        shutil.copyfile(os.path.join(REPO, "go.sum"), os.path.join(HARNESS, "go.sum"))
+        rc, out1 = sh(["go", "run", "./cmd/genreg", os.path.join(REPO, "cdr/cdrType"),
+                       os.path.join(HARNESS, "cdrreg/registry_gen.go")], cwd=HARNESS, env=GOENV, timeout=600)
+        if rc != 0:
+            raise RuntimeError("genreg failed:\n" + out1[-3000:])
+        rc, out2 = sh(["go", "run", "-tags", "verif", "./cmd/genschema", os.path.join(COQ, "Ber/SchemaGen.v")],
+                      cwd=HARNESS, env=GOENV, timeout=600)
+        if rc != 0:
+            raise RuntimeError("genschema failed:\n" + out2[-3000:])
+    info = {}
+    m = re.search(r"schema types=(\d+) struct=(\d+) defs=(\d+)", out2)
+    if m:
+        info = {"schema_types": int(m.group(1)), "struct_types": int(m.group(2)), "definitions": int(m.group(3))}
+    info["notes"] = [l[6:] for l in out2.splitlines() if l.startswith("note: ")]
+    return info
 
 
 def regenerate_all():
-    return []
+    info = {"ber": regenerate_ber()}
+    return info
